@@ -560,3 +560,7 @@ def run(repo: Repo, rep: Report, tier: str) -> None:
     from .c02 import flush_rule
 
     flush_rule(repo, rep, "C03.R15")
+    from .c09 import zero_alignment_rule
+
+    zero_alignment_rule(repo, rep, "C03.R19")
+
